@@ -28,6 +28,33 @@ def gen_assignments(types_t, types_s):
     return out
 
 
+REG_TARGETS = ["RxV", "RyV", "RsV", "RdV", "RxxV", "RttV", "PxV", "PvV", "CxV", "MuV", "R31", "R0", "P0", "P3", "C4", "R1:0",
+               "HEX_REG_ALIAS_SP", "HEX_REG_ALIAS_LR", "HEX_REG_ALIAS_USR", "HEX_REG_ALIAS_LC0", "HEX_REG_ALIAS_P3_0"]
+REG_UPDATES = ["%s++;", "%s--;", "%s = %s + 1;", "%s += 2;", "%s = a;"]
+REG_CONTEXTS = [
+    ("alone", "%(u)s"), ("read-before", "r = %(t)s + a; %(u)s"), ("read-after", "%(u)s r = %(t)s + a;"), ("both", "r = %(t)s; %(u)s q = %(t)s;"),
+    ("twice", "%(u)s %(u)s"), ("twice-read", "%(u)s r = %(t)s; %(u)s q = %(t)s;"), ("in-if", "if (a) { %(u)s } r = %(t)s;"),
+    ("read-in-if", "if (%(t)s) { %(u)s } else { r = %(t)s; }"), ("operand-of-next", "%(u)s RdV = %(t)s + RsV;"),
+]
+
+
+def gen_reg_updates(targets=None):
+    """Every way to update a register-like target (operand letters, explicit numbers, aliases) next to reads of the same
+    target before / after / around the update."""
+    out = []
+    for t in targets or REG_TARGETS:
+        for u in REG_UPDATES:
+            upd = u % ((t,) * u.count("%s"))
+            for cname, c in REG_CONTEXTS:
+                if t == "RdV" and cname == "operand-of-next":
+                    continue
+                text = c % {"t": t, "u": upd}
+                if text.startswith("R1:0"):
+                    text = "r = 0; " + text  # an explicit pair as the first token of a statement parses as a label
+                out.append(P([("int32_t", "a", "input"), ("int64_t", "r", "local"), ("int64_t", "q", "local")], text, ("regupd", t, u, cname)))
+    return out
+
+
 def gen_bool_mix(types):
     out = []
     cmps = ["<", "==", "!=", ">="]
@@ -278,7 +305,7 @@ def static_space(tier):
         specs += c02.space("quick")
         specs += gen_assignments(T8, T8)
         specs += gen_bool_mix(["int8_t", "uint8_t", "uint16_t", "int32_t", "uint32_t", "int64_t", "uint64_t"])
-    specs += gen_reuse() + gen_folding() + gen_control() + gen_rw_operands()
+    specs += gen_reuse() + gen_folding() + gen_control() + gen_rw_operands() + gen_reg_updates()
     specs += gen_bool_positions(BOOL_EXPRS[:4] if tier == "quick" else BOOL_EXPRS)
     specs += gen_cond_positions()
     specs += gen_calls(CALL_ARGS[:8] if tier == "quick" else CALL_ARGS)
@@ -427,10 +454,16 @@ def const_cond_dead_identifier(src, msg=""):
     return bool(cands & ids)
 
 
+def rw_operand_written(src, msg):
+    """the operand the message names is assigned (or updated) by the source"""
+    m = re.search(r"pure ([A-Z][yzstuvw]{1,2}) is initialised but never used", msg)
+    return bool(m) and re.search(r"\b%sV\s*(=[^=]|\+\+|--|[-+*/%%&|^]=|<<=|>>=)" % m.group(1), src) is not None
+
+
 STATIC_FINDINGS = [
     ("KF-const-cond-dead-arm", "sorts", r"identifier \w+ does not hold a pure|local \w+ is read but no path ever sets it", const_cond_dead_identifier),
     ("KF-const-cond-dead-arm", "wellformed", r"identifier '\w+' is not declared before use", const_cond_dead_identifier),
-    ("KF-rw-operand-read-leak", "linearity", r"pure [A-Z][yz]{1,2}\w* is initialised but never used", lambda src: re.search(r"\b[A-Z][yz]{1,2}V\s*=[^=]", src) is not None),
+    ("KF-rw-operand-read-leak", "linearity", r"pure [A-Z][yzstuvw]{1,2} is initialised but never used", rw_operand_written),
     ("KF-const-cond-dead-arm", "linearity", r"pure \w+ is initialised but never used \(leak\)|pure \w+ is consumed 2 times without DUP", const_cond_dead_operand),
     ("KF-unary-fold-unreduced", "wellformed", r"an integer constant does not fit any C integer type", lambda src: re.search(r"[-~]\s*(0[xX][0-9a-fA-F]+|\d+)", src) is not None),
     ("KF-unused-value-statement-leak", "linearity", r"pure \w+ is initialised but never used \(leak\)", unused_pure_statement_leak),
@@ -439,7 +472,7 @@ STATIC_FINDINGS = [
 
 def attribute(col, msg, src):
     for fid, c, rx, pred in STATIC_FINDINGS:
-        if c == col and re.search(rx, msg) and (pred(src, msg) if pred in (unused_pure_statement_leak, const_cond_dead_operand, const_cond_dead_identifier) else pred(src)):
+        if c == col and re.search(rx, msg) and (pred(src, msg) if pred in (unused_pure_statement_leak, const_cond_dead_operand, const_cond_dead_identifier, rw_operand_written) else pred(src)):
             return fid
     return None
 
